@@ -978,11 +978,14 @@ class Envelope:
         from photon_weave.state.fock import Fock
         from photon_weave.state.polarization import Polarization, PolarizationLabel
 
-        if self.composite_envelope is not None:
+        # Only states held in a composite product space are traced out there
+        if self.composite_envelope is not None and any(
+            isinstance(s.index, tuple) for s in states
+        ):
             assert isinstance(self.composite_envelope, CompositeEnvelope)
             return self.composite_envelope.trace_out(*states)
 
-        if self.state is None and self.composite_envelope is None:
+        if self.state is None:
             if len(states) == 1:
                 assert isinstance(states[0], (Polarization, Fock))
                 assert isinstance(
